@@ -91,6 +91,42 @@ def run(ctx):
                 ctx.bad(R_term, key, "%s:%d" % (f.file, lp["ln"]), "probe loop over `%s` has no exit for returning to the start index" % v,
                         "when every slot is occupied the operation never terminates")
 
+    # ... and the value the index is compared with *is* the start value (symbolically: the same masked hash), not merely some
+    # `index == x` — shared with C05.G
+    from .c05 import probe_wrap_exit_rule
+    probe_wrap_exit_rule(ctx, prog, "C06")
+
+    # compact() reads names and file contents through `self.archive`, the read-only view opened at open() time.  flush() writes the
+    # tables to disk but does not refresh that view, so unless flush() itself re-opens it, compact() must re-open it on every path
+    # before the first read through it (dirty or not: an explicit flush() earlier in the session cleared `dirty` already)
+    R_view = ctx.rule("C06.compact-reads-through-fresh-view", "in compact() every path to a read through self.archive passes `Archive::open` (or flush() re-opens the view itself)", floor=1)
+    cp = mpq.fns.get("wow_mpq::modification::MutableArchive::compact")
+    fl_ = mpq.fns.get("wow_mpq::modification::MutableArchive::flush")
+    if cp is None or not cp.mir:
+        ctx.bad(R_view, "compact|missing", "-", "compact not found", "anchor gone")
+    else:
+        ctx.saw_fn(cp)
+        READS = re.compile(r"archive::Archive::(list|list_all|read_file|read_file_by_indices|find_file|get_file_info|read_file_with_new_handle)$|modification::MutableArchive::(list|read_file|read_current_file|find_file)$")
+        opens = {bb for bb, t in mirg.iter_calls(cp) if re.search(r"archive::Archive::open(_with_options)?$", norm(mirg.callee(t) or ""))}
+        reads = [(bb, t) for bb, t in mirg.iter_calls(cp) if READS.search(norm(mirg.callee(t) or ""))]
+        flush_reopens = False
+        if fl_ is not None and fl_.mir:
+            fo = {bb for bb, t in mirg.iter_calls(fl_) if re.search(r"archive::Archive::open(_with_options)?$", norm(mirg.callee(t) or ""))}
+            if fo:
+                fcfg = mirg.Cfg(fl_)
+                flush_reopens = fcfg.must_pass(fo, [b for b in fcfg.returns()])[0]
+        if not reads:
+            ctx.bad(R_view, "compact|no-reads", cp.where, "no read through the archive view recognised in compact()", "shape changed")
+        else:
+            ccfg = mirg.Cfg(cp)
+            ok_, wit = ccfg.must_pass(opens, [bb for bb, _ in reads])
+            if ok_ or flush_reopens:
+                ctx.ok(R_view, {"reads_through_view": len(reads), "reopen_sites": len(opens), "flush_reopens": flush_reopens})
+            else:
+                t_ = next(t for bb, t in reads if bb == wit)
+                ctx.bad(R_view, "compact|stale-view", "%s:%d" % (cp.file, t_["ln"]), "`%s` at line %d is reachable without re-opening the archive view" % (norm(mirg.callee(t_) or "").split("::")[-1], t_["ln"]),
+                        "after replace/add + flush() in the same session compact() rebuilds the archive from the tables captured at open(): the replacement is silently reverted, added files are reported as unknown")
+
     # failure atomicity
     for name in ("add_file_data", "remove_file", "rename_file"):
         f = mpq.fns.get(MUT + name)
